@@ -265,7 +265,9 @@ pub fn block<'t>(ctx: Context<'t>) -> ParseResult<'t, Vec<Statement>> {
             }
             Err((_ctx, mut err)) => {
                 ctx = _ctx.pop_skip_newlines(false); // assign to outer
-                ctx = skip_until!(ctx, T::Newline).skip_if(T::Newline);
+                // Don't skip past the end of this block - that would swallow the
+                // statements following the block as if they were part of it.
+                ctx = skip_until!(ctx, T::Newline | T::End | T::Else | T::Elif).skip_if(T::Newline);
                 errs.append(&mut err);
             }
         }
